@@ -64,3 +64,85 @@ Proof. exact dbi_rows_cluster_order. Qed.
 Theorem C19_dunn_singleton_refuted : exists nf a b s,
   PrimFloat.eqb (dunn nf [s; a; b]) (dunn nf [a; b; s]) = false /\ length s = 1%nat.
 Proof. exact dunn_singleton_order_dependent. Qed.
+
+(* ---- global counts, DBI matrix, CHI terms, Dunn without singletons (Proofs/AnalysisMore.v) ---- *)
+From BB Require Import Model.Birch Proofs.AnalysisMore.
+Theorem C19_analysis_singletons : forall nf rows cls top ms,
+  a_singletons (cluster_analysis nf rows cls top ms) =
+  zlen (filter (fun c => zlen c =? 1) cls).
+Proof. exact analysis_singletons. Qed.
+Theorem C19_analysis_clusters_above : forall nf rows cls top ms size,
+  clusters_above (cluster_analysis nf rows cls top ms) size =
+  zlen (filter (fun c => size <? zlen c) cls).
+Proof. exact analysis_clusters_above. Qed.
+Theorem C19_analysis_total_is_rows : forall nf rows cls top ms N,
+  Permutation (concat cls) (zseq 0 N) ->
+  a_total (cluster_analysis nf rows cls top ms) = Z.of_nat N.
+Proof. exact analysis_total_is_rows. Qed.
+Theorem C19_analysis_counts_perm : forall nf rows cls cls' top ms top' ms',
+  Permutation cls cls' ->
+  let a := cluster_analysis nf rows cls top ms in
+  let a' := cluster_analysis nf rows cls' top' ms' in
+  a_total a = a_total a' /\
+  a_nclusters a = a_nclusters a' /\
+  a_singletons a = a_singletons a' /\
+  (forall size, clusters_above a size = clusters_above a' size) /\
+  Permutation (a_all_sizes a) (a_all_sizes a').
+Proof. exact analysis_counts_perm. Qed.
+Theorem C19_analysis_counts_rows : forall nf rows cls cls' top ms,
+  Forall2 (fun a b => Permutation a b) cls cls' ->
+  let a := cluster_analysis nf rows cls top ms in
+  let a' := cluster_analysis nf rows cls' top ms in
+  a_sizes a = a_sizes a' /\
+  a_isims a = a_isims a' /\
+  a_total a = a_total a' /\
+  a_nclusters a = a_nclusters a' /\
+  a_singletons a = a_singletons a' /\
+  a_all_sizes a = a_all_sizes a' /\
+  (forall size, clusters_above a size = clusters_above a' size).
+Proof. exact analysis_counts_rows. Qed.
+Theorem C19_dbi_terms_row_order : forall nf cls cls',
+  Forall2 (fun a b => Permutation a b) cls cls' ->
+  Forall2 (fun t t' => Permutation t t') (fst (dbi_terms nf cls)) (fst (dbi_terms nf cls')) /\
+  snd (dbi_terms nf cls) = snd (dbi_terms nf cls').
+Proof. exact dbi_terms_row_order. Qed.
+Theorem C19_dbi_matrix_entry : forall nf cls i j d,
+  (i < length cls)%nat -> (j < length cls)%nat ->
+  nth j (nth i (snd (dbi_terms nf cls)) []) d =
+  (1 - sim (cl_centroid nf (nth i cls [])) (cl_centroid nf (nth j cls [])))%float.
+Proof. exact dbi_matrix_entry. Qed.
+Theorem C19_dbi_matrix_symmetric : forall nf cls i j d,
+  (i < length cls)%nat -> (j < length cls)%nat ->
+  nth j (nth i (snd (dbi_terms nf cls)) []) d =
+  nth i (nth j (snd (dbi_terms nf cls)) []) d.
+Proof. exact dbi_matrix_symmetric. Qed.
+Theorem C19_dbi_matrix_cluster_order : forall nf cls cls' d,
+  Permutation cls cls' ->
+  length cls' = length cls /\
+  exists f : nat -> nat,
+    (forall i, (i < length cls')%nat -> (f i < length cls)%nat) /\
+    (forall i j, (i < length cls')%nat -> (j < length cls')%nat -> f i = f j -> i = j) /\
+    (forall i, (i < length cls')%nat -> nth i cls' [] = nth (f i) cls []) /\
+    (forall i j, (i < length cls')%nat -> (j < length cls')%nat ->
+       nth j (nth i (snd (dbi_terms nf cls')) []) d =
+       nth (f j) (nth (f i) (snd (dbi_terms nf cls)) []) d).
+Proof. exact dbi_matrix_cluster_order. Qed.
+Theorem C19_chi_terms_spec : forall nf cls k d,
+  (k < length cls)%nat ->
+  nth k (chi_terms nf cls) d =
+  (let cl := nth k cls [] in
+   let c := cl_centroid nf cl in
+   let g := chi_global nf cls in
+   (zlen cl, (1 - sim g c)%float, map (fun r => (1 - sim r c)%float) cl)).
+Proof. exact chi_terms_spec. Qed.
+Theorem C19_chi_global_centroid_invariant : forall nf cls cls',
+  (Permutation cls cls' -> chi_global nf cls' = chi_global nf cls) /\
+  (Forall2 (fun a b => Permutation a b) cls cls' -> chi_global nf cls' = chi_global nf cls).
+Proof. exact chi_global_centroid_invariant. Qed.
+Theorem C19_dunn_cluster_order_no_singletons : forall nf cls cls' B,
+  Permutation cls cls' ->
+  Forall (fun cl => 2 <= zlen cl <= B) cls ->
+  (2 * B) * (2 * B) * Z.of_nat nf < 2 ^ 52 ->
+  PrimFloat.eqb (dunn nf cls) (dunn nf cls') = true \/
+  (is_nan_f (dunn nf cls) = true /\ is_nan_f (dunn nf cls') = true).
+Proof. exact dunn_cluster_order_no_singletons. Qed.
